@@ -7,6 +7,7 @@
   descending) on the spectrum of every truncating `_update_ms` call of real `compress` sweeps.
 -/
 import RenoVerif.Model.Trunc
+import Mathlib.Data.List.Sort
 import Mathlib.Algebra.Order.BigOperators.Group.List
 import Mathlib.Algebra.Order.Ring.Rat
 import Mathlib.Tactic.Linarith
@@ -91,4 +92,44 @@ example : discarded [3, 2, 1] 2 ≤ (weights [3, 2, 1]).sum - ([9, 1] : List ℚ
 example : ([5, 1] : List ℚ).sum ≤ (([5, 3, 1] : List ℚ).take 2).sum := by
   have h : ([5, 1] : List ℚ).Sublist [5, 3, 1] := by decide
   exact keep_largest_optimal h (by decide)
+/-- `svd_qn`: the singular values of all symmetry blocks, sorted globally in descending order -/
+def globalSpectrum (blocks : List (List ℚ)) : List ℚ := blocks.flatten.mergeSort (fun a b => decide (a ≥ b))
+
+theorem globalSpectrum_perm (blocks : List (List ℚ)) : (globalSpectrum blocks).Perm blocks.flatten :=
+  List.mergeSort_perm _ _
+
+theorem globalSpectrum_sorted (blocks : List (List ℚ)) : (globalSpectrum blocks).Pairwise (· ≥ ·) := by
+  have h := List.pairwise_mergeSort (le := fun a b : ℚ => decide (a ≥ b))
+    (fun a b c hab hbc => by simp only [decide_eq_true_eq] at *; exact le_trans hbc hab)
+    (fun a b => by simp only [Bool.or_eq_true, decide_eq_true_eq]; exact le_total b a) blocks.flatten
+  simpa [globalSpectrum] using h
+
+theorem globalSpectrum_nonneg (blocks : List (List ℚ)) (h0 : ∀ b ∈ blocks, ∀ s ∈ b, 0 ≤ s) :
+    ∀ s ∈ globalSpectrum blocks, 0 ≤ s := by
+  intro s hs
+  have : s ∈ blocks.flatten := (globalSpectrum_perm blocks).mem_iff.1 hs
+  obtain ⟨b, hb, hsb⟩ := List.mem_flatten.1 this
+  exact h0 b hb s hsb
+
+/-- **block-diagonal SVD followed by the global sort truncates optimally**: keeping the first `m` values of the
+    globally sorted spectrum discards no more weight than any other choice of `m` values from all blocks -/
+theorem global_truncation_optimal (blocks : List (List ℚ)) (h0 : ∀ b ∈ blocks, ∀ s ∈ b, 0 ≤ s)
+    {s : List ℚ} (hs : s.Sublist (weights (globalSpectrum blocks))) :
+    discarded (globalSpectrum blocks) s.length ≤ (weights blocks.flatten).sum - s.sum := by
+  have h := discarded_optimal (globalSpectrum blocks) (globalSpectrum_nonneg blocks h0) (globalSpectrum_sorted blocks) hs
+  have e : (weights (globalSpectrum blocks)).sum = (weights blocks.flatten).sum :=
+    ((globalSpectrum_perm blocks).map _).sum_eq
+  rwa [e] at h
+
+/-- the global sort is needed: cutting the block-ordered concatenation `[3,1] ++ [2]` after two values
+    discards weight 4, the sorted one discards 1 -/
+example : discarded ([[3, 1], [2]] : List (List ℚ)).flatten 2 = 4 ∧ discarded (globalSpectrum [[3, 1], [2]]) 2 = 1 := by
+  constructor
+  · norm_num [discarded, normSq]
+  · have e : globalSpectrum [[3, 1], [2]] = [3, 2, 1] := by
+      refine List.Perm.eq_of_pairwise (le := (· ≥ ·)) (fun a b _ _ h1 h2 => le_antisymm h2 h1)
+        (globalSpectrum_sorted _) (by decide) ((globalSpectrum_perm _).trans ?_)
+      show [3, 1, 2].Perm [3, 2, 1]
+      exact (List.Perm.swap 2 1 []).cons 3
+    rw [e]; norm_num [discarded, normSq]
 end RenoVerif.TruncOpt
